@@ -24,6 +24,10 @@ CHECKS = {
                 note='trusted: the twin is the same component code threaded functionally; representation oracle objects are built separately from the ones inside OuterEnv'),
     'C11': dict(engine='stochastic', design='5/C11', technique='deterministic simulation owning every random outcome: ScriptedRng (uniform / extreme / forced outcomes) and real seeded generators; outcome forcing re-executes a step for every resolution of its random choices; relational post-conditions with a search over obstacle turn orders',
                 note='trusted: ScriptedRng (differentially tested against numpy Generator at setup), the turn-order search (bounded to 6 obstacles, larger = undecided)'),
+    'C13': dict(engine='resetsim', design='5/C13', technique='deterministic simulation owning every random outcome of the reset functions: real seeded generators and ScriptedRng with uniform / extreme outcomes over valid and invalid parameter regions; each call must raise ValueError or return a state passing an independent well-formedness validator',
+                note='trusted: the validator in gvsim/resets.py and ScriptedRng (differentially tested); non-positive shape/layout entries are outside the domain; crossing only with argument-less object types'),
+    'C14': dict(engine='resetsim', design='5/C14', technique='deterministic simulation, bounded liveness: a planner client plans on the reference model (random outcomes resolved existentially) and executes the plan on the real step function with a ScriptedRng replaying the chosen outcomes; exhaustive search over the real step function decides when no plan is found',
+                note='trusted: family compositions mirror the shipped configurations; planner failures on stochastic families and searches beyond the budget are undecided (counted, never reported); one known finding (memory_rooms) is listed in KNOWN_FINDINGS.txt'),
     'C20': dict(engine='gymsim', design='5/C20', technique='deterministic simulation: gym-level clients (direct, gym.make(id).unwrapped, registry factory; with/without GymStateWrapper) refined op by op against a functionally threaded twin and oracle-built representations; representation switches injected at arbitrary points; adversary noise on global state',
                 note='trusted: the twin inner environment and separately constructed representation objects; indices outside range(n) and GymEnvironment.seed are not exercised'),
     'C08': dict(engine='sim', design='5/C08', technique='deterministic simulation: seeded op schedules over free-form worlds and shipped configurations, per-component and per-step refinement of the agent pose against a reference model, history invariant',
@@ -39,6 +43,7 @@ NOT_APPLICABLE = [
 ]
 
 ENGINES = {
+    'resetsim': ('gvsim/resets.py', 'case runner for the eight built-in reset functions with owned generators (real seeded / ScriptedRng), validator, model planner and real-step search'),
     'gymsim': ('gvsim/props/c20.py', 'gym-layer runner: real GymEnvironment / GymStateWrapper / OuterEnv over YAML-built GridWorlds, next to a functionally threaded twin'),
     'stochastic': ('gvsim/props/c11.py', 'scripted-generator runner: real GridWorld / transition functions with a ScriptedRng or a real seeded Generator, outcome forcing'),
     'sim': ('gvsim/sim.py', 'in-process simulator: clients = real environment stacks, adversary on process-global state, seeded scheduler at operation granularity, monitors against reference models'),
